@@ -158,6 +158,11 @@ func propC08(c *Check) {
 	c.Rule("R5", "goroutine isolation: no memory reachable from captured variables is written by one errgroup closure (callees to depth 3 included) and read or written by its sibling")
 
 	maxTx, _ := constant.Int64Val(p.LookupObj("x/goat/keeper", "maxTxLen").(*types.Const).Val())
+	if maxTx == 16 {
+		c.Held("R1", "proposal-cap-is-16", "", "maxTxLen = 16")
+	} else {
+		c.Violated("R1", "proposal-cap-is-16", p.Pos(p.LookupObj("x/goat/keeper", "maxTxLen").Pos()), fmt.Sprintf("the cap on the transactions of a proposal is %d, the property fixes it at 16", maxTx))
+	}
 	pp := p.returnedClosure("x/goat/keeper.Keeper.ProcessProposalHandler")
 	c.RequireFact(pp, "R1", "non-empty", lit(NE("0", "len($1.Txs)")), nil, "")
 	c.RequireFact(pp, "R1", "at-most-maxTxLen", fmt.Sprintf(`^\(len\(\$1\.Txs\) <= %d\)$|^\(len\(\$1\.Txs\) < %d\)$`, maxTx, maxTx+1), nil, "")
